@@ -51,11 +51,12 @@ func main() {
 
 func driver() {
 	run := evid.New("C17", "exploration")
-	run.Rule = "Part A: credential maps over the protocol's attribute names (protocol, host, path, username, password, wwwauth[], state[], authtype, credential, capability[], password_expiry_utc, oauth_refresh_token, ephemeral, continue); one value of one key carries a token (forbidden: LF, NUL, CRLF, CR; harmless look-alikes: TAB, VT, FF, DEL, ESC, BS, SOH, U+2028/2029/0085, raw 0x85/0xff, literal %0a/%0D/%00, backslash-n, '=', space, 'host=evil' text, UTF-8; whole-value shapes empty/long(4k..200k)/random bytes/blank edges) at position start/middle/end/alone; key x token x position are enumerated from the case index, operation (fill/approve/reject), family (direct map | URL+headers+state through GetCredentialHelper/FillCreds), credential.protectProtocol mode (unset,true,false,url-scoped false, other-url false, global false + url true), other keys/values and multi-value counts are PRNG-drawn. Part B: `git lfs locks` of the real binary, remote URL with percent-encoded token in userinfo/host/path/password, raw WWW-Authenticate/Lfs-Authenticate bytes from a TCP server, multistage helper answers (state[]) with CR/NUL/CRLF line ends. class = (part, family|location, op, protect mode, key, token, position)."
+	run.Rule = "Part A: credential maps over the protocol's attribute names (protocol, host, path, username, password, wwwauth[], state[], authtype, credential, capability[], password_expiry_utc, oauth_refresh_token, ephemeral, continue); one value of one key carries a token (forbidden: LF, NUL, CRLF, CR; harmless look-alikes: TAB, VT, FF, DEL, ESC, BS, SOH, U+2028/2029/0085, raw 0x85/0xff, literal %0a/%0D/%00, backslash-n, '=', space, 'host=evil' text, UTF-8; whole-value shapes empty/long(4k..200k)/random bytes/blank edges) at position start/middle/end/alone; key x token x position are enumerated from the case index, operation (fill/approve/reject), family (direct map | URL+headers+state through GetCredentialHelper/FillCreds), credential.protectProtocol mode (unset,true,false,url-scoped false, other-url false, global false + url true), other keys/values and multi-value counts are PRNG-drawn. Part B: `git lfs locks` of the real binary, remote URL with percent-encoded token in userinfo/host/path/password, raw WWW-Authenticate/Lfs-Authenticate bytes from a TCP server, multistage helper answers (state[]) with CR/NUL/CRLF line ends. Sequence family (seq.go): ONE CredentialHelperContext reused for 2-4 look-ups over 4 hosts with credential.<url>.protectProtocol per host in {unset,true,false} plus the global setting; each exchange judged by the setting of ITS url; coordinates: style, op, protection for the url, whether an earlier url of the context had protection off (prior), fresh wrapper | wrapper used after another GetCredentialHelper (stale-wrapper, last step only) | control byte in the URL path with a URL-scoped setting that differs from the global one; the skip list after a refused Fill and the credential cache are modelled, never flagged. Part B also: `git lfs smudge` whose batch answer points at another host with the token in the href's userinfo/path, per-host protectProtocol (e2e_href.go), and a redirect shape (approve of the first URL's credentials after a look-up for a second URL). class = (part, family|location, op, protect mode, key, token, position)."
 	run.Assumptions = []string{
 		"the `git` shim first on PATH sees exactly what git-lfs passes to `git credential` (git-lfs resolves `git` through PATH: subprocess.LookPath)",
 		"protocol protection is on when credential.protectProtocol is unset or true for the URL (creds.go GetCredentialHelper; docs of Git's credential.protectProtocol)",
 		"weakest reading of 'exactly the pairs supplied': multiset equality of LF-terminated key=value lines in any order, preceded/accompanied by the two capability lines git-lfs documents sending (capability[]=authtype, capability[]=state); one optional terminating blank line tolerated",
+		"protection 'is enabled' for an exchange means: enabled for the URL the credential wrapper was obtained for (URL-scoped credential.<url>.protectProtocol wins over the global one, default on), whatever other URLs the same process looked up before or in between",
 		"keys are the fixed attribute names of the protocol; only values are hostile (the statement quantifies over values)",
 		"end to end: what Go's HTTP client delivers is what is judged; a header value is derivable if the driver's own RFC 7230 field parser yields it from the raw bytes sent",
 		"return value of a passed-through call (e.g. parsing of the helper's answer) is not judged",
@@ -79,16 +80,17 @@ func driver() {
 
 	nPass := run.N(4_000, 40_000)
 	nRefuse := run.N(20_000, 1_000_000)
+	nSeq := run.N(3_000, 60_000) // sequences of 2-4 steps sharing one context
 	nE2E := run.N(56, 1_500)
 	run.SetMinEvaluations(nPass + nRefuse)
 
-	partA(run, self, shimDir, nPass, nRefuse)
-	partB(run, shimDir, nE2E)
+	partA(run, self, shimDir, nPass, nRefuse, nSeq)
+	partB(run, shimDir, nE2E, run.N(12, 300))
 	sbx.RemoveBase() // Finish exits the process: deferred calls do not run
 	run.Finish()
 }
 
-func partA(run *evid.Run, self, shimDir string, nPass, nRefuse int) {
+func partA(run *evid.Run, self, shimDir string, nPass, nRefuse, nSeq int) {
 	W := runtime.NumCPU()
 	if W > 32 {
 		W = 32
@@ -111,7 +113,7 @@ func partA(run *evid.Run, self, shimDir string, nPass, nRefuse int) {
 			outfile := filepath.Join(root, "out.json")
 			ctx, cancel := context.WithTimeout(context.Background(), 40*time.Minute) // watchdog only
 			defer cancel()
-			cmd := exec.CommandContext(ctx, self, "__worker", strconv.Itoa(w), strconv.Itoa(W), strconv.FormatInt(run.Seed, 10), strconv.Itoa(nPass), strconv.Itoa(nRefuse), logdir, outfile)
+			cmd := exec.CommandContext(ctx, self, "__worker", strconv.Itoa(w), strconv.Itoa(W), strconv.FormatInt(run.Seed, 10), strconv.Itoa(nPass), strconv.Itoa(nRefuse), logdir, outfile, strconv.Itoa(nSeq))
 			cmd.Dir = cwd
 			cmd.Env = []string{"HOME=" + home, "XDG_CONFIG_HOME=" + filepath.Join(root, "xdg"), "TMPDIR=" + root, "PATH=" + shimDir + ":/usr/bin:/bin",
 				"GIT_CONFIG_NOSYSTEM=1", "GIT_CEILING_DIRECTORIES=" + root, "GIT_TERMINAL_PROMPT=0", "LANG=C", "LC_ALL=C",
@@ -204,7 +206,7 @@ func partA(run *evid.Run, self, shimDir string, nPass, nRefuse int) {
 	run.Set("part_a_violating_cases_reported_by_workers", len(vs))
 }
 
-func partB(run *evid.Run, shimDir string, n int) {
+func partB(run *evid.Run, shimDir string, n, nHref int) {
 	if _, err := os.Stat(filepath.Join(sbx.BinDir, "git-lfs")); err != nil {
 		sbx.RemoveBase()
 		run.Infra("git-lfs binary missing in %s", sbx.BinDir)
@@ -224,12 +226,20 @@ func partB(run *evid.Run, shimDir string, n int) {
 							run.Inconclusive(fmt.Sprintf("e2e case %d: harness panic: %v", i, x))
 						}
 					}()
+					if i >= n+nHref {
+						runCaseR(sh, i-n-nHref)
+						return
+					}
+					if i >= n {
+						runCaseH(sh, genCaseH(run.Seed, i-n))
+						return
+					}
 					runCaseE(sh, genCaseE(run.Seed, i))
 				}()
 			}
 		}()
 	}
-	for i := 0; i < n; i++ {
+	for i := 0; i < n+nHref+2; i++ {
 		jobs <- i
 	}
 	close(jobs)
